@@ -26,7 +26,14 @@ def gen_cfg(rng):
         rate = {"refill": rng.choice([0, 1, 1, 2]), "interval": rng.choice([0, 1, 2, 3, 5]) * MS,
                 "max": rng.choice([None, 1, 2, 3]), "initial": rng.choice([None, 0, 1, 2])}
     n0 = rng.choice([0, 1, 1, 2, 2, 2, 3, 4]) if router in ("queuer", "sticky") else rng.choice([0, 1, 1, 1, 2, 2, 2, 2, 3, 4])
-    return {"router": router, "queue": queue, "discard": discard, "rate": rate, "n0": n0}
+    # scripted WorkerCapacityController (asked on every Calculate tick) and, for factory-queueing routers,
+    # DiscardSettings::Dynamic with a scripted controller (asked on every DoPings); worker-queueing routers get
+    # no changing dynamic limit: a busy worker learns it only with its next pong (not modelled)
+    ctl = [rng.choice([0, 1, 2, 2, 3, 4]) for _ in range(rng.choice([1, 2, 3]))] if rng.random() < 0.25 else None
+    dyn = None
+    if discard is not None and router in ("queuer", "sticky") and rng.random() < 0.3:
+        dyn = [rng.choice([0, 1, 2, 3]) for _ in range(rng.choice([1, 2, 3]))]
+    return {"router": router, "queue": queue, "discard": discard, "rate": rate, "n0": n0, "ctl": ctl, "dyn": dyn}
 
 
 def gen_scenario(rng, style=None):
@@ -51,6 +58,7 @@ def gen_scenario(rng, style=None):
     we = {"late_events": 4.0, "resize": 1.0}.get(style, 0.5)
     size = max(c["n0"], 0)
     cur_disc = "none" if c["discard"] is None else f"{c['discard'][0]}:{c['discard'][1]}"
+    ticks = 0
     if c["rate"]:
         wa = 2.0
     drain_at = rng.randint(2, budget) if style == "drain" or rng.random() < 0.25 else None
@@ -60,6 +68,16 @@ def gen_scenario(rng, style=None):
         if rng.random() < 0.06:
             cur_disc = gen_discard_update(rng)
             ops += [("upd", cur_disc), ("settle",)]
+            settles += 1
+            c["dyn_live"] = False
+            continue
+        if ticks < 3 and rng.random() < (0.12 if (c.get("ctl") or c.get("dyn")) else 0.03):
+            ticks += 1
+            ops += [("tick",), ("settle",)]
+            settles += 1
+            continue
+        if rng.random() < 0.03:
+            ops += [("updhooks",), ("settle",)]
             settles += 1
             continue
         if drain_at is not None and step == drain_at and not drained:
@@ -124,7 +142,7 @@ def gen_scenario(rng, style=None):
             maxw = max(maxw, n)
             if n:
                 size = n
-            ops += [("resize", n), ("settle",)]
+            ops += [(rng.choice(["resize", "resize", "updn"]), n), ("settle",)]
             settles += 1
         elif r < wd + wf + wr + wk:
             ops += [(rng.choice(["kill", "failw"]), rng.randint(0, maxw)), ("settle",)]
@@ -151,6 +169,7 @@ def gen_update(rng):
     c["n0"] = rng.choice([1, 1, 2, 2, 3])
     if rng.random() < 0.5:
         c["discard"] = None
+        c["dyn"] = None
     ops = [("settle",)]
     nid = 0
     settles = 1
@@ -201,6 +220,7 @@ def gen_retire_drain(rng):
     c = gen_cfg(rng)
     c["router"] = rng.choice(["rr", "custom", "kp"])
     c["rate"] = None
+    c["dyn"] = None
     c["n0"] = rng.choice([2, 2, 3, 4])
     if c["discard"] is not None and c["discard"][1] < 2:
         c["discard"] = (c["discard"][0], rng.choice([2, 3, 5]))
@@ -240,7 +260,8 @@ def scn_line(s):
         rate = (f"{r['refill']}:{r['interval']}:{'-' if r['max'] is None else r['max']}:"
                 f"{'-' if r['initial'] is None else r['initial']}")
     ops = " ; ".join(" ".join(str(x) for x in o) for o in s["ops"])
-    return f"cap {c['router']} {c['queue']} {disc} {rate} {c['n0']} ; {ops}"
+    scr = lambda v: "-" if v is None else (",".join(str(x) for x in v) or "-")
+    return f"cap {c['router']} {c['queue']} {disc} {rate} {c['n0']} {scr(c.get('ctl'))} {scr(c.get('dyn'))} ; {ops}"
 
 
 USIZE_MAX = 2**64 - 1
@@ -271,7 +292,8 @@ def cfg_term(c, ops=()):
         maxb = USIZE_MAX // 2 if r["max"] is None else r["max"]
         init = "None" if r["initial"] is None else f"(Some {r['initial']})"
         rate = f"(Some (mkCfg {r['refill']} {r['interval']} {maxb} {USIZE_MAX} {IMAX}, {init}))"
-    return f"(mkFcfg {router} {queue} {disc} {rate} {c['n0']} {table})"
+    lst = lambda v: "[" + "; ".join(str(x) for x in (v or [])) + "]"
+    return f"(mkFcfg {router} {queue} {disc} {rate} {c['n0']} {table} ({lst(c.get('ctl'))}, {lst(c.get('dyn'))}))"
 
 
 def disc_term(d):
@@ -297,7 +319,8 @@ def op_term(o):
             "resize": lambda: f"FResize {o[1]}", "drain": lambda: "FDrain", "adv": lambda: f"FAdv {o[1]}",
             "settle": lambda: "FSettle", "q": lambda: "FQuery", "finall": lambda: "FFinishAll",
             "stopw": lambda: f"FStopW {o[1]}", "openstop": lambda: f"FOpenStop {o[1]}",
-            "upd": lambda: "FUpdate " + disc_term(o[1])}[k]()
+            "upd": lambda: "FUpdate " + disc_term(o[1]), "tick": lambda: "FTick",
+            "updn": lambda: f"FResize {o[1]}", "updhooks": lambda: "FNudge"}[k]()
 
 
 def model_ops(ops):
@@ -414,7 +437,8 @@ def factory_part(chk, build, factor):
         chk.count("factory.style." + s.get("style", "corpus"))
         chk.count("factory.router." + s["cfg"]["router"])
         for o in s["ops"]:
-            if o[0] in ("stopw", "gatestop", "openstop", "resize", "drain", "kill", "failw", "upd"):
+            if o[0] in ("stopw", "gatestop", "openstop", "resize", "drain", "kill", "failw", "upd", "tick", "updn",
+                        "updhooks"):
                 chk.count("factory.op." + o[0])
         chk.count("factory.discard." + ("none" if s["cfg"]["discard"] is None else s["cfg"]["discard"][0]))
         flat = [e for w in iw for e in w]
